@@ -2,10 +2,26 @@
 
 use crate::engine::Family;
 
+pub mod c01;
+pub mod c02;
+pub mod c03;
+pub mod c04;
+pub mod c05;
+pub mod c06;
+pub mod c07;
+pub mod c08;
+pub mod c09;
 pub mod c10;
 pub mod c11;
 pub mod c12;
+pub mod c13;
+pub mod c14;
+pub mod c15;
+pub mod c16;
+pub mod c17;
+pub mod c18;
 pub mod c19;
+pub mod c20;
 
 pub struct PropMeta {
     pub level: &'static str,
@@ -60,6 +76,22 @@ pub fn meta(id: &str) -> PropMeta {
             m.quick_bound = "strings <= 7 over 5 chars, <= 4 over 9 chars; round trip <= 2 args";
             m.thorough_bound = "strings <= 9 over 5 chars, <= 5 over 9 chars; round trip <= 3 args";
         }
+        "C01" => c01::meta(&mut m),
+        "C02" => c02::meta(&mut m),
+        "C03" => c03::meta(&mut m),
+        "C04" => c04::meta(&mut m),
+        "C05" => c05::meta(&mut m),
+        "C06" => c06::meta(&mut m),
+        "C07" => c07::meta(&mut m),
+        "C08" => c08::meta(&mut m),
+        "C09" => c09::meta(&mut m),
+        "C13" => c13::meta(&mut m),
+        "C14" => c14::meta(&mut m),
+        "C15" => c15::meta(&mut m),
+        "C16" => c16::meta(&mut m),
+        "C17" => c17::meta(&mut m),
+        "C18" => c18::meta(&mut m),
+        "C20" => c20::meta(&mut m),
         _ => {}
     }
     m
@@ -71,6 +103,22 @@ pub fn families(id: &str, tier: &str) -> Vec<Box<dyn Family>> {
         "C11" => c11::families(tier),
         "C12" => c12::families(tier),
         "C19" => c19::families(tier),
+        "C01" => c01::families(tier),
+        "C02" => c02::families(tier),
+        "C03" => c03::families(tier),
+        "C04" => c04::families(tier),
+        "C05" => c05::families(tier),
+        "C06" => c06::families(tier),
+        "C07" => c07::families(tier),
+        "C08" => c08::families(tier),
+        "C09" => c09::families(tier),
+        "C13" => c13::families(tier),
+        "C14" => c14::families(tier),
+        "C15" => c15::families(tier),
+        "C16" => c16::families(tier),
+        "C17" => c17::families(tier),
+        "C18" => c18::families(tier),
+        "C20" => c20::families(tier),
         _ => vec![],
     }
 }
